@@ -14,8 +14,8 @@ KINDS = ['I', 'R', 'D', 'F']
 PREDEF = ['lt', 'gt', 'amp', 'apos', 'quot']
 
 # ------------------------------------------------------------------ the piece universe of DESIGN 5.11
-TEXTS = ['x', ' ', '\t', '\n', '\r', ' x ', '  ']
-CREFS = [9, 10, 13, 32, 60, 38, 34, 39, 120]
+TEXTS = ['x', ' ', '\t', '\n', '\r', ' x ', '  ', '\u00a0', 'a\u3000b', '\u2028x', '\u0085']   # the last four: white space for Unicode, NOT for XML (3.3.3 names #x20 #xD #xA #x9 only)
+CREFS = [9, 10, 13, 32, 60, 38, 34, 39, 120, 160, 0x3000]
 # entities of nesting depth 1..3 whose literals mix text, white space, character and entity references
 ENTS = {
     'e1': [('t', ' '), ('c', 10), ('t', 'y')],
@@ -23,6 +23,7 @@ ENTS = {
     'e3': [('t', '\r\n')],
     'e4': [('c', 32), ('t', ' '), ('c', 32)],
     'e5': [],
+    'e6': [('t', '\u00a0'), ('c', 0x2003), ('t', 'w')],
     'f1': [('r', 'e1'), ('t', ' '), ('r', 'e2')],
     'f2': [('c', 13), ('r', 'e3')],
     'f3': [('r', 'lt'), ('r', 'amp'), ('r', 'quot'), ('c', 39)],
